@@ -1,4 +1,4 @@
-From QV Require Import Intervals.Model Fn.IntExpr Expr.Filter Corr.Lib.
+From QV Require Import Intervals.Model Fn.IntExpr Expr.Filter Expr.FilterNull Corr.Lib.
 Open Scope Z_scope.
 
 Definition c10_case := (list (list (Z * Z)) * pred * list (list (Z * Z)))%type.
@@ -7,3 +7,19 @@ Definition filter_ok (c : c10_case) : bool :=
   let '(t, p, out) := c in
   list_eqb ivs_eqb (map merge_adjacent (narrow CAP t p)) (map merge_adjacent out).
 Definition filter_check cases := bad_indices filter_ok cases.
+
+(* nullable columns: (optional flag, ranges) per column before and after the narrowing.  The ranges are those
+   of [narrow]; a column the implementation stops declaring optional must be one whose flag [nflags] drops
+   (the model drops as many flags as is sound, the implementation may keep more) *)
+Definition c10_null_case := (list (bool * list (Z * Z)) * pred * list (bool * list (Z * Z)))%type.
+Fixpoint flags_le (model impl : list bool) : bool :=
+  match model, impl with
+  | [], [] => true
+  | m :: model', i :: impl' => implb m i && flags_le model' impl'
+  | _, _ => false
+  end.
+Definition filter_null_ok (c : c10_null_case) : bool :=
+  let '(t, p, out) := c in
+  list_eqb ivs_eqb (map merge_adjacent (narrow CAP (map snd t) p)) (map merge_adjacent (map snd out)) &&
+  flags_le (nflags (map fst t) p) (map fst out).
+Definition filter_null_check cases := bad_indices filter_null_ok cases.
